@@ -288,6 +288,43 @@ fn index_width_cases(coin: &'static Coin) -> Vec<(String, ChainBuilder)> {
         cb.push(vec![Tx { version: 1, segwit: false, inputs: vec![TxIn::spend([0xee; 32], 1)], outputs: many, locktime: 0 }]);
         v.push(("large values (sums beyond 2^32 / 2^53 / near 2^64) and 3000 outputs to one address".to_string(), cb));
     }
+    // every address-carrying script kind, each paid twice (one of the two spent again) plus the address-less kinds:
+    // P2PK with the generator point (a valid key), with arbitrary 33/65-byte keys (almost surely not curve points), P2PKH, P2SH,
+    // P2WPKH, P2WSH, P2TR, future witness versions, bare multisig, OP_RETURN, empty and non-standard scripts
+    {
+        let mut cb = ChainBuilder::with_genesis(coin);
+        let g33 = refmodel::ser::unhex("0279be667ef9dcbbac55a06295ce870b07029bfcdb2dce28d959f2815b16f81798");
+        let g65 = refmodel::ser::unhex("0479be667ef9dcbbac55a06295ce870b07029bfcdb2dce28d959f2815b16f81798483ada7726a3c4655da4fbfc0e1108a8fd17b448a68554199c47d08ffb10d4b8");
+        let mut kinds: Vec<Vec<u8>> = vec![script::p2pk(&g33), script::p2pk(&g65), script::p2pkh(&hash160(&g33)), script::p2pkh(&hash160(&g65))];
+        for s in [1u8, 2, 3, 4, 5, 6, 7, 8] {
+            kinds.push(script::p2pk(&script::key33(s)));
+            kinds.push(script::p2pk(&script::key65(s)));
+        }
+        kinds.push(script::p2pkh(&script::h20(1)));
+        kinds.push(script::p2sh(&script::h20(1)));
+        kinds.push(script::witness(0, &script::h20(1)));
+        kinds.push(script::witness(0, &[7u8; 32]));
+        kinds.push(script::witness(1, &[8u8; 32]));
+        kinds.push(script::witness(2, &[9u8; 32]));
+        kinds.push(script::witness(16, &[9u8; 2]));
+        kinds.push(script::multisig(1, &[&script::key33(9), &script::key33(10)], 2));
+        kinds.push(script::op_return(b"x"));
+        kinds.push(vec![]);
+        kinds.push(vec![0x51]);
+        kinds.push(vec![0x76, 0xa9, 0x14]);
+        let mut outs = Vec::new();
+        for (i, k) in kinds.iter().enumerate() {
+            outs.push(TxOut { value: 100 + i as u64, script: k.clone() });
+            outs.push(TxOut { value: 10_000 + i as u64, script: k.clone() });
+        }
+        let n = outs.len() as u32;
+        let payer = Tx { version: 1, segwit: false, inputs: vec![TxIn::spend([0xee; 32], 0)], outputs: outs, locktime: 0 };
+        let txid = payer.txid();
+        cb.push(vec![payer]);
+        let spender = Tx { version: 1, segwit: false, inputs: (0..n).step_by(2).map(|i| TxIn::spend(txid, i)).collect(), outputs: vec![TxOut { value: 1, script: script::p2pk(&g33) }], locktime: 0 };
+        cb.push(vec![spender]);
+        v.push((format!("{} script kinds (valid / invalid-point P2PK, P2PKH, P2SH, witness v0/v1/v2/v16, multisig, OP_RETURN, empty, non-standard), each paid twice and spent once", kinds.len()), cb));
+    }
     // a big UTXO set: 250 000 unspent outputs over 40 addresses (5 transactions of 50 000 outputs), 10 000 of them spent again
     {
         let mut cb = ChainBuilder::with_genesis(coin);
